@@ -893,10 +893,9 @@ example : ((RM.run (RM.init .doTake) ([(0,2)] ++ List.replicate 9 (0,0))).bind f
 Full statement (as `sf_keys_independent` for SingleFlight): a blocked caller waits only for the holder of a mutex — who
 exists and is enabled — or for the unfinished leader of a flight of its OWN key.  Proven (`rm_keys_independent_partial`,
 with `RM.InvL` of ProofsRMX.lean: a taken flight-group mutex / write lock has a holder inside its critical section): all
-of that for the flight-group mutex, the write lock and `Wait`.  MISSING for the full statement: when the writer at g6 is
-blocked by READERS (`nrd ≠ 0`) the readers are only counted, not identified (`nrd ≠ 0 → ∃ u at p1 / p2 / g1 / g2` needs a
-count over an unbounded set of goroutines); they are always enabled (`rm_critical_section_enabled`).  For the same
-reason there is no `rm_no_deadlock`. -/
+of that for the flight-group mutex, the write lock and `Wait`.  Round 5c: the readers are identified (`RM.Readers`: the counter is the length of a duplicate-free list of exactly the
+goroutines at p1 / p2 / g1 / g2), which gives the full `rm_keys_independent` and `rm_no_deadlock` below;
+`rm_keys_independent_partial` is kept as the lemma they are built on. -/
 theorem rm_blocked_cases {s : RM.St} {t : Tid} {x : Nat} (hb : RM.step s t x = none) :
     ((s.pc t = .l0 ∨ s.pc t = .d0) ∧ s.lock ≠ none) ∨ (s.pc t = .w1 ∧ s.wg (s.reg t) ≠ 0) ∨
     ((s.pc t = .p0 ∨ s.pc t = .g0) ∧ s.rw ≠ none) ∨ (s.pc t = .g6 ∧ ¬(s.rw = none ∧ s.nrd = 0)) := by
@@ -960,6 +959,58 @@ theorem rm_keys_independent_partial {s : RM.St} (h : RM.Reach s) (t : Tid) (x : 
 example : (RM.run (RM.init .getResource) (rmDemo.take 16)).map (fun s => (s.pc 1, (RM.step s 1 0).isSome, decide (s.key 1 = s.key 0)))
     = some (.w1, false, true) := by decide
 
+
+/-! ### Round 5c: the full statements (readers identified: `RM.Readers`, `RM.reader_exists` in ProofsRMX.lean) -/
+
+/-- **Who a blocked `GetResource` / `Take` caller waits for** (every `Cfg`; full statement, as `sf_keys_independent`): the
+holder of the flight-group mutex, the writer of the map, or an identified READER of the map — each of whom is inside a
+short critical section and can always take its next step — or, in `Wait`, the leader of a flight *for the same key*
+that has not called `Done` yet.  Calls on other keys are never waited for. -/
+theorem rm_keys_independent {s : RM.St} (h : RM.Reach s) (t : Tid) (x : Nat) (hb : RM.step s t x = none) :
+    (∃ u, s.lock = some u ∧ (s.pc u).holdsLock = true ∧ ∀ y, (RM.step s u y).isSome = true) ∨
+    (s.pc t = .w1 ∧ ∃ u, s.key u = s.key t ∧ (s.pc u).wgOne = true ∧ s.reg u = s.reg t) ∨
+    (∃ u, s.rw = some u ∧ (s.pc u = .g7 ∨ s.pc u = .g8) ∧ ∀ y, (RM.step s u y).isSome = true) ∨
+    (s.pc t = .g6 ∧ ∃ u, (s.pc u).isRd = true ∧ ∀ y, (RM.step s u y).isSome = true) := by
+  rcases rm_keys_independent_partial h t x hb with a | a | a | ⟨hp, _, hn⟩
+  · exact .inl a
+  · exact .inr (.inl a)
+  · exact .inr (.inr (.inl a))
+  · obtain ⟨u, hu⟩ := RM.reader_exists h hn
+    refine .inr (.inr (.inr ⟨hp, u, hu, fun y => rm_critical_section_enabled s u y ?_⟩))
+    revert hu; cases s.pc u <;> simp [RM.PC.isRd]
+
+/-- **No deadlock, no lost wake-up** for `GetResource` and both `Take` users: whenever some call is in progress, some
+goroutine that is inside a call can take a step (for every environment input). -/
+theorem rm_no_deadlock {s : RM.St} (h : RM.Reach s) (t : Tid) (ht : s.pc t ≠ .idle) :
+    ∃ u, s.pc u ≠ .idle ∧ ∀ y, (RM.step s u y).isSome = true := by
+  have indep : ∀ u y z, (RM.step s u y).isSome = true → (RM.step s u z).isSome = true := by
+    intro u y z
+    unfold RM.step
+    cases s.pc u <;> simp <;> (try split) <;> (try split) <;> simp
+  -- a blocked goroutine either has an enabled goroutine to wait for, or waits (in `Wait`) for a leader past `Add`
+  have blocked : ∀ v, RM.step s v 0 = none →
+      (∃ u, s.pc u ≠ .idle ∧ ∀ y, (RM.step s u y).isSome = true) ∨ (s.pc v = .w1 ∧ ∃ u, (s.pc u).wgOne = true) := by
+    intro v hv
+    rcases rm_keys_independent h v 0 hv with ⟨u, _, hh, he⟩ | ⟨hp, u, _, hw, _⟩ | ⟨u, _, hh, he⟩ | ⟨_, u, hh, he⟩
+    · exact .inl ⟨u, by revert hh; cases s.pc u <;> simp [RM.PC.holdsLock], he⟩
+    · exact .inr ⟨hp, u, hw⟩
+    · exact .inl ⟨u, by rcases hh with hh | hh <;> simp [hh], he⟩
+    · exact .inl ⟨u, by revert hh; cases s.pc u <;> simp [RM.PC.isRd], he⟩
+  cases hst : RM.step s t 0 with
+  | some s' => exact ⟨t, ht, fun y => indep t 0 y (by simp [hst])⟩
+  | none =>
+    rcases blocked t hst with a | ⟨_, u, hw⟩
+    · exact a
+    · cases hsu : RM.step s u 0 with
+      | some s' => exact ⟨u, by revert hw; cases s.pc u <;> simp [RM.PC.wgOne], fun y => indep u 0 y (by simp [hsu])⟩
+      | none =>
+        rcases blocked u hsu with a | ⟨hp, _⟩
+        · exact a
+        · rw [hp] at hw; simp [RM.PC.wgOne] at hw
+
+/-- non-vacuity: goroutine 1 waits for goroutine 0's flight; goroutine 0 (inside `create`) is enabled. -/
+example : (RM.run (RM.init .getResource) (rmDemo.take 16)).map
+    (fun s => (s.pc 1, (RM.step s 1 0).isSome, s.pc 0, (RM.step s 0 0).isSome)) = some (.w1, false, .g5, true) := by decide
 
 /-! ### Round 5: `ResourceManager.Inject` inside the theorems (`RM.ReachI`: calls and registrations — a registration while
 no call is in progress, of a key that holds nothing, with a non-nil resource; this is how mon's `Inject` test hook is
